@@ -41,3 +41,8 @@ package filetracker
 //@ func (*TFile).getRangeToRead
 //@   call Root#1 bind root = $ret0
 //@   call Walk#1 assert [walks-whole-tree] root_set && $0 == root
+// the marker that decides an offset may lie anywhere before it: every query walks the whole tree, from the
+// root, with the per-marker step above; no shortcut through a sub-tree
+//@   call Walk#1 bind walked = $0
+//@   ensures [every-query-walks-the-whole-tree] walked_set
+//@   only Walk 1
